@@ -305,7 +305,7 @@ fn c05_time_single(kind: u8) {
 
 // ------------------------------------------------------------- C18: independence of the clock
 
-//@ unit c18_full_date_no_clock prop=C18,C05,C06,C03 chunks=ints:0,1 quick=first:1 unwind=10 mem=12 timeout=3600 stubs=chrono::Local::now=>crate::verif_support::stub_local_now,crate::util::try_format=>crate::verif_support::stub_try_format bound="parameter 0: picture YYYYMM with every 6-digit text; parameter 1 (thorough): picture YYYYMMDD with every 8-digit text: the result is the date denoted (day 1 when omitted) or an error, and the (symbolic) clock is not consulted at all"
+//@ unit c18_full_date_no_clock prop=C18 chunks=ints:0,1 quick=first:1 unwind=10 mem=12 timeout=3600 stubs=chrono::Local::now=>crate::verif_support::stub_local_now,crate::util::try_format=>crate::verif_support::stub_try_format bound="parameter 0: picture YYYYMM with every 6-digit text; parameter 1 (thorough): picture YYYYMMDD with every 8-digit text: the result is the date denoted (day 1 when omitted) or an error, and the (symbolic) clock is not consulted at all"
 fn c18_full_date_no_clock(with_day: i64) {
     any_clock(1970, 9999);
     let dg: [u8; 8] = kani::any();
@@ -357,7 +357,7 @@ fn reparse_equal<const N: usize>(a: &Sink<N>, b: &Sink<N>) -> bool {
     true
 }
 
-//@ unit c06_time_hm prop=C06,C05,C04,C03 chunks=ints:0,1 quick=all unwind=10 mem=12 timeout=3600 stubs=chrono::Local::now=>crate::verif_support::stub_local_now,crate::util::try_format=>crate::verif_support::stub_try_format,crate::time::Time::extract=>crate::format::verif_h_fmt_fields::stub_time_extract bound="every hour and minute of the day (parameter 0: picture HH24MI, parameter 1: MIHH24 - field order swapped, adjacent fixed-width fields): format, parse the text with the same Formatter, get the value back, re-format byte for byte"
+//@ unit c06_time_hm prop=C06 chunks=ints:0,1 quick=all unwind=10 mem=12 timeout=3600 stubs=chrono::Local::now=>crate::verif_support::stub_local_now,crate::util::try_format=>crate::verif_support::stub_try_format,crate::time::Time::extract=>crate::format::verif_h_fmt_fields::stub_time_extract bound="every hour and minute of the day (parameter 0: picture HH24MI, parameter 1: MIHH24 - field order swapped, adjacent fixed-width fields): format, parse the text with the same Formatter, get the value back, re-format byte for byte"
 fn c06_time_hm(swapped: i64) {
     any_clock(1970, 9999);
     let h: u32 = kani::any();
@@ -488,5 +488,34 @@ fn c05_ampm_hh12(order: i64) {
         assert!(r.is_err());
         kani::cover!(h == 13);
     }
+    std::mem::forget(fmt);
+}
+
+//@ unit c06_date_ddd prop=C06,C05,C04 clock=1 unwind=14 mem=10 timeout=3000 stubs=chrono::Local::now=>crate::verif_support::stub_local_now,crate::util::try_format=>crate::verif_support::stub_try_format,crate::common::julian2date=>crate::verif_support::ghost_julian2date bound="every date of the current year (symbolic clock year 1970..=9999, every month and day incl. 29 February and 31 December of leap years) with the picture DDD: format gives three digits, parsing them with the same Formatter returns the date, re-formatting reproduces the text"
+fn c06_date_ddd() {
+    let (cy, _, _, _, _, _, _) = any_clock(1970, 9999);
+    let m: u32 = kani::any();
+    let d: u32 = kani::any();
+    kani::assume(o_valid_ymd(cy, m, d));
+    let x = SqlDate::try_from_ymd(cy, m, d).unwrap();
+    register_ghost(x, (cy, m, d));
+    let fmt = fmt1(Field::DayOfYear);
+    let mut s1: Sink<16> = Sink::new();
+    assert!(fmt.format(x, &mut s1).is_ok());
+    assert!(s1.len == 3);
+    let text = unsafe { std::str::from_utf8_unchecked(&s1.buf[..3]) };
+    let r: Result<SqlDate> = fmt.parse(text);
+    match r {
+        Ok(v) => {
+            assert!(v == x);
+            let mut s2: Sink<16> = Sink::new();
+            assert!(fmt.format(v, &mut s2).is_ok());
+            assert!(reparse_equal(&s1, &s2));
+        }
+        Err(_) => assert!(false),
+    }
+    kani::cover!(m == 12 && d == 31 && o_leap(cy));
+    kani::cover!(m == 2 && d == 29);
+    kani::cover!(m == 1 && d == 1);
     std::mem::forget(fmt);
 }
